@@ -295,6 +295,10 @@ class AbstractJob:                                      # pylint: disable=R0902
             style['color'] = 'red'
             style['penwidth'] = 2
         else:
+            # set the color explicitly: the style of a nested scheduler
+            # is written as graph attributes of its cluster, and a cluster
+            # inherits the attributes - e.g. color=red - of the enclosing one
+            style['color'] = 'black'
             style['penwidth'] = 0.5
         return style
 
